@@ -108,8 +108,26 @@ func runC11(p *core.Prog, r *core.Report) {
 				if _, isMake := w.Value.(*ssa.MakeMap); isMake {
 					continue // `if kv == nil { kv = make(...) }`: empty map, size of an empty snapshot is 0
 				}
-				// value must be field Kv of result #0 of Unmarshal
-				f, base := core.LoadedField(w.Value)
+				// value must be field Kv of result #0 of Unmarshal (possibly passed through a helper of the package that only
+				// replaces a nil map by an empty one)
+				val := w.Value
+				if hc, ok := val.(*ssa.Call); ok && len(hc.Call.Args) == 1 {
+					if h := core.StaticFn(hc.Common()); h != nil && h.Pkg == fn.Pkg && h.Blocks != nil {
+						passes := true
+						core.Instrs(h, func(in ssa.Instruction) {
+							if rt, ok := in.(*ssa.Return); ok && len(rt.Results) == 1 {
+								rv := core.ReturnValues(rt)[0]
+								if _, isMk := rv.(*ssa.MakeMap); !isMk && rv != ssa.Value(h.Params[0]) {
+									passes = false
+								}
+							}
+						})
+						if passes {
+							val = hc.Call.Args[0]
+						}
+					}
+				}
+				f, base := core.LoadedField(val)
 				if f != nil && f.Name() == "Kv" {
 					if ex, ok := base.(*ssa.Extract); ok && ex.Index == 0 {
 						if c, ok := ex.Tuple.(*ssa.Call); ok && core.CommonCallee(c.Common()) == unm {
@@ -152,7 +170,7 @@ func runC11(p *core.Prog, r *core.Report) {
 		isSz := func(v ssa.Value) bool { f, _ := core.LoadedField(core.SkipConv(v)); return f == sz }
 		isLim := func(v ssa.Value) bool { f, _ := core.LoadedField(core.SkipConv(v)); return f == limit }
 		var tests []ssa.Instruction
-		core.Instrs(fn, func(in ssa.Instruction) {
+		core.InstrsDeep(fn, func(in ssa.Instruction) {
 			ifi, ok := in.(*ssa.If)
 			if !ok {
 				return
@@ -374,7 +392,7 @@ func absentProven(fn *ssa.Function, call ssa.Instruction, key ssa.Value, kv *typ
 			continue
 		}
 		var absentEdges []core.Edge
-		core.Instrs(fn, func(in ssa.Instruction) {
+		core.InstrsDeep(fn, func(in ssa.Instruction) {
 			ifi, ok := in.(*ssa.If)
 			if !ok {
 				return
